@@ -48,6 +48,10 @@ def run_worker(args):
     shard, nshards = (int(x) for x in args.worker.split("/"))
     ctx = Ctx(args.id, args.tier, args.seed, shard, nshards)
     t0 = time.time()
+    from .reach import Reach
+    reach = Reach(REPO)
+    if os.environ.get("STIXMON_REACH", "1") != "0":
+        reach.start()
     try:
         if hasattr(mod, "setup"):
             mod.setup(ctx)
@@ -66,7 +70,9 @@ def run_worker(args):
             mod.teardown(ctx)
     except Exception as e:
         ctx.harness_error("worker", e)
+    reach.stop()
     d = ctx.dump()
+    d["reach"] = reach.dump()
     d["wall_s"] = time.time() - t0
     tmp = args.out + ".tmp"
     with open(tmp, "w") as f:
@@ -110,8 +116,10 @@ def run_replay(args):
 
 def merge(results):
     m = {"counters": {}, "seen": {}, "distinct": set(), "samples": [], "violations": {},
-         "violation_counts": {}, "harness_errors": [], "skips": {}}
+         "violation_counts": {}, "harness_errors": [], "skips": {}, "reach": {}}
     for r in results:
+        for f, ls in r.get("reach", {}).items():
+            m["reach"].setdefault(f, set()).update(ls)
         for k, v in r["counters"].items():
             m["counters"][k] = m["counters"].get(k, 0) + v
         for g, vals in r["seen"].items():
@@ -260,6 +268,14 @@ def run_parent(args):
         "wall_s": round(time.time() - t0, 2),
         "violations": len(unknown),
     }
+    if m["reach"]:
+        try:
+            from .reach import summarize
+            ev["coverage"]["library_reach"] = summarize(REPO, m["reach"])
+            with open(os.path.join(OUT, "work", "%s-%s-reach.json" % (pid, args.tier)), "w") as f:
+                json.dump({k: sorted(v) for k, v in m["reach"].items()}, f)
+        except Exception as e:
+            ev["coverage"]["library_reach"] = {"error": repr(e)}
     if hasattr(mod, "extra_evidence"):
         try:
             ev["coverage"].update(mod.extra_evidence(m, args.tier) or {})
